@@ -11,10 +11,12 @@ Proof. vm_compute. reflexivity. Qed.
 (** the lemma names used by the catalogue are exactly the ones checked below *)
 Lemma lemma_names : lemmas_used =
   ["intern_content"; "run_got_content"; "par_set_union"; "gets_seq_content"; "seq_font_set";
-   "par_layer_spec"; "par_layer_ok_iff"; "run_done_perm"; "fold_ins_perm"; "par_save_spec";
-   "par_save_ok_iff"; "par_save2_equiv"; "par_font_spec"; "par_font_set"; "par_save_font_eq_seq"].
+   "files_ok_nodup"; "loaded_layer_paths_distinct"; "par_layer_spec"; "par_layer_ok_iff";
+   "run_done_perm"; "fold_ins_perm"; "par_save_spec"; "par_save_ok_iff"; "par_save2_equiv";
+   "par_font_spec"; "par_font_set"; "par_save_font_eq_seq"].
 Proof. vm_compute. reflexivity. Qed.
 Check intern_content. Check run_got_content. Check par_set_union. Check gets_seq_content.
-Check seq_font_set. Check par_layer_spec. Check par_layer_ok_iff. Check run_done_perm.
-Check fold_ins_perm. Check par_save_spec. Check par_save_ok_iff. Check par_font_spec.
-Check par_font_set. Check par_save_font_eq_seq. Check par_save2_equiv.
+Check seq_font_set. Check files_ok_nodup. Check loaded_layer_paths_distinct. Check par_layer_spec.
+Check par_layer_ok_iff. Check run_done_perm. Check fold_ins_perm. Check par_save_spec.
+Check par_save_ok_iff. Check par_save2_equiv. Check par_font_spec. Check par_font_set.
+Check par_save_font_eq_seq.
